@@ -17,7 +17,8 @@ RankOfStep(P, s) == LET ins == P.steps[s].ins
                     IN MaxI(ra, rb)
 AnyWrapped(P, s) == LET ins == P.steps[s].ins IN
                     (Has(ins, "a") /\ Wrapped(Reg(P, ins.a))) \/ (Has(ins, "b") /\ Wrapped(Reg(P, ins.b)))
-PyArith(P, s) == P.steps[s].ins.op = "py" /\ P.steps[s].ins.name \in (DOMAIN PyCore) \cup (DOMAIN PyUn) \cup {"__pow__"}
+\* (the tagging of the leaves is part of C01 / C02's quantifier: the Python-facing constructors belong to them as well)
+PyArith(P, s) == P.steps[s].ins.op = "py" /\ P.steps[s].ins.name \in (DOMAIN PyCore) \cup (DOMAIN PyUn) \cup {"__pow__", "vars_from"}
 Owned(P, s) ==
   LET op == P.steps[s].ins.op IN
   \* C01 / C02 observe derivatives through gradient1 / gradient2, so those read-backs belong to them as well
